@@ -153,8 +153,8 @@ SIMPLE = [
     (r'<(std::ops::)?Range<usize> as Iterator>::rev$', 'M.range_rev'),
     (r'<Rev<(std::ops::)?Range<usize>> as Iterator>::next$', 'M.range_rev_next'),
     (r'std::slice::<impl \[.*\]>::contains$', 'M.slice_contains'),
-    (r'std::slice::<impl \[.*\]>::first$', 'M.slice_first'),
-    (r'std::slice::<impl \[.*\]>::last$', 'M.slice_last'),
+    (r'std::slice::<impl \[.*\]>::first(_mut)?$', 'M.slice_first'),
+    (r'std::slice::<impl \[.*\]>::last(_mut)?$', 'M.slice_last'),
     (r'std::slice::<impl \[.*\]>::get(_mut)?::<usize>$', 'M.slice_get'),
     (r'std::slice::<impl \[.*\]>::reverse$', 'M.slice_reverse'),
     (r'std::slice::<impl \[.*\]>::swap$', 'M.slice_swap'),
@@ -293,6 +293,8 @@ SIMPLE = [
     (r'std::mem::take::<Option<.*>>$', 'M.mem_take_option'),
     (r'std::bool::<impl bool>::then_some::<.*>$', 'M.bool_then_some'),
     (r'Box::<[^{}]*>::new$', 'M.box_new'),
+    (r'Box::<\[.*\]>::new_uninit$', 'M.box_new_uninit'),
+    (r'std::boxed::box_assume_init_into_vec_unsafe::<.*>$', 'M.box_assume_init_into_vec'),
     (r'GraphMap::<usize, EdgeInfo, Directed>::edges_directed$', 'M.graph_edges_directed'),
     (r'GraphMap::<usize, EdgeInfo, Directed>::edges$', 'M.graph_edges'),
     (r'GraphMap::<usize, EdgeInfo, Directed>::neighbors$', 'M.graph_neighbors'),
